@@ -218,11 +218,24 @@ func genC19(rt *rapid.T, concurrent bool) c19Case {
 		c.Kind = "expression"
 		cfg := &genCfg{vars: c01VarNames, funcs: []string{"Max", "Min", "Sum", "If", "Abs", "Array", "Contains", "Choose", "Array"}, consts: defaultConst, maxArgs: 4, noLike: true}
 		tree := genSized(rt, cfg, rapid.SampledFrom([]int{2, 3, 4, 6, 8, 12, 20}).Draw(rt, "size"))
+		if rapid.IntRange(0, 3).Draw(rt, "direct") == 0 {
+			// a function applied directly to variables (arguments by reference), combined with a re-read of the variable
+			fn := rapid.SampledFrom([]string{"Abs", "Max", "Min", "Sum", "If", "Choose", "Array", "Contains", "Round", "Trunc", "Sqrt", "Ceil"}).Draw(rt, "dfn")
+			call := &node{Op: "call", Tok: fn}
+			for i := rapid.IntRange(1, 3).Draw(rt, "dargc"); i > 0; i-- {
+				call.Kids = append(call.Kids, &node{Op: "var", Tok: rapid.SampledFrom(c01VarNames).Draw(rt, "dvar")})
+			}
+			tree = &node{Op: rapid.SampledFrom([]string{"+", "=", "<", "AND"}).Draw(rt, "dop"), Kids: []*node{call, tree}}
+		}
 		c.Text = spellRandom(rt, printTokens(tree, rapid.IntRange(0, 2).Draw(rt, "style"), func() bool { return rapid.IntRange(0, 5).Draw(rt, "xp") == 0 }))
 		for i := 0; i < k; i++ {
 			var bs []binding
 			for _, n := range c01VarNames {
-				bs = append(bs, binding{n, genC01Value(rt)})
+				v := genC01Value(rt)
+				if rapid.IntRange(0, 3).Draw(rt, "neg") == 0 {
+					v = rapid.SampledFrom([]val{vDouble(-2.5), vDouble(-0.5), vFloat(-1.5), vInt(-3), vLong(-4), vDouble(1e300), vString("-2.5")}).Draw(rt, "negval")
+				}
+				bs = append(bs, binding{n, v})
 			}
 			c.Vars = append(c.Vars, bs)
 		}
@@ -313,4 +326,49 @@ func TestC19_RaceConcurrent(t *testing.T) {
 	if logPath != "" {
 		os.Remove(logPath)
 	}
+}
+
+// TestC19_EnumFunctionPurity: every deterministic built-in function applied directly to variables (arguments
+// passed by reference) must leave the variables, the program and its own result repeatable.
+func TestC19_EnumFunctionPurity(t *testing.T) {
+	rec := evid.New("C19", "TestC19_EnumFunctionPurity", "C19", c19Rule+"; function purity: every deterministic built-in applied directly to variables holding boundary values (negative / fractional / huge numbers, strings, arrays, null), evaluated alternately under two collections")
+	rec.Exhaustive = true
+	rec.DupFree = true
+	defer finish(t, rec)
+	pool := append([]val{vDouble(-2.5), vFloat(-1.5), vInt(-7), vLong(-5), vDouble(0.49999999999999994)}, c08SubPool...)
+	var names []string
+	for _, n := range c08Names {
+		switch n {
+		case "Ticks", "Now", "Rnd", "Random", "Null", "E", "Pi":
+		default:
+			names = append(names, n)
+		}
+	}
+	rec.Bounds = fmt.Sprintf("%d deterministic functions x all argument lists of length 1..2 over a %d-value pool (length 3 at rotating offsets), variables a, b, c, two collections, order [0 1 0 1 1 0]", len(names), len(pool))
+	parallelFor(len(names), func(i int) {
+		name := names[i]
+		run := func(args []val) {
+			vn := []string{"a", "b", "c"}[:len(args)]
+			c := c19Case{Kind: "expression", Text: name + "(" + strings.Join(vn, ", ") + ")", Order: []int{0, 1, 0, 1, 1, 0}}
+			var b0, b1 []binding
+			for k, a := range args {
+				b0 = append(b0, binding{vn[k], a})
+				b1 = append(b1, binding{vn[k], args[(k+1)%len(args)]})
+			}
+			c.Vars = [][]binding{b0, b1}
+			rec.Case(jsonStr(c), true, func() interface{} { return fmt.Sprintf("%s with %v", c.Text, b0) }, "fn:"+name)
+			if f := checkC19(c); f != nil {
+				rec.Fail(f, c)
+			}
+		}
+		for _, a := range pool {
+			run([]val{a})
+			for _, b := range pool {
+				run([]val{a, b})
+			}
+		}
+		for off := range pool {
+			run([]val{pool[off], pool[(off+3)%len(pool)], pool[(off+7)%len(pool)]})
+		}
+	})
 }
